@@ -26,7 +26,7 @@ CHECKS["C06"] = {
 CHECKS["C01"] = {
     "level": "exploration",
     "subs": [
-        _sub("TestC01_Converge", 3000, 100000, sq=16, st=16),
+        _sub("TestC01_Converge", 2400, 100000, sq=16, st=16),
     ],
 }
 
@@ -49,5 +49,18 @@ CHECKS["C08"] = {
     "level": "exploration",
     "subs": [
         _sub("TestC08_Fidelity", 2500, 100000, sq=16, st=16),
+    ],
+}
+
+CHECKS["C09"] = {
+    "level": "exploration",
+    "subs": [
+        _sub("TestC09_Vacuum", 1600, 80000, sq=16, st=16),
+    ],
+}
+CHECKS["C10"] = {
+    "level": "exploration",
+    "subs": [
+        _sub("TestC10_Reclaim", 1000, 60000, sq=16, st=16),
     ],
 }
